@@ -34,6 +34,10 @@ TEXT = {
          "Rocq proof of the number-coding inverse through the parser model; parser model/implementation correspondence; round-trip oracle on emitted streams"),
  "C16": ("Theorems C16_crc16_detects_bursts / C16_crc8_detects_bursts / C16_crc_is_bitwise: for messages of ANY length, two messages whose difference is confined to a window of 16 (resp. 8) bits have different CRC-16 (CRC-8) remainders - linearity proved algebraically, the two register facts by complete sweeps inside Coq. The parser model has no panicking outcome; agreement of the implementation's verdict (ok/err/panic) with it, and non-acceptance of altered frames with different audio, are decided by the PARSE stream (random positions in quick, every bit position in thorough). PARTIAL for bursts that shift the CRC window.",
          "Rocq proof: CRC burst-detection theorems (algebra + exhaustive state sweeps); mutation enumeration against the parser with the parser model as reference"),
+ "C05": ("Protocol model Model/Par.v (feeder, W workers, hashing thread, epilogue; fault plans) with theorems by complete schedule exploration of finite instances inside Coq (every schedule terminates, no deadlock, each frame exactly once and in order, digest input in order). PARTIAL w.r.t. all W / all schedules. Tie: (i) byte equality of multi-threaded output with single-threaded output and with the encoder model for 1..16 workers from configuration and environment override (DLV, PAR); (ii) trace validation: every event log recorded at the hook points under seeded schedule perturbation must be accepted by the extracted LTS and end in the implementation's outcome.",
+         "Rocq LTS model with in-Coq exhaustive exploration of finite instances; trace validation of implementation event logs against the extracted LTS; byte-equality correspondence"),
+ "C06": ("Same LTS with fault plans (read error at any read index, out-of-range blocks): finite-instance theorems that every schedule terminates without deadlock in the outcome of the single-threaded reference. PARTIAL w.r.t. all W / all fault positions. Tie: PAR stream with injected faults x workers x perturbed schedules: result kind equal to single-threaded, no panic, no hang (timeout), no thread alive after return (/proc/self/task), event log accepted by the extracted LTS.",
+         "Rocq LTS model with fault plans explored exhaustively for finite instances; fault-injection runs with trace validation"),
 }
 NOTE = ("Trusted: Coq 8.16.1 kernel, extraction with ExtrOcamlBasic only, OCaml driver, Rust harness, tools/*.py, "
         "and the hand-written model of the named source files, which is tied to /repo by differential testing "
